@@ -58,7 +58,9 @@ pub fn format_number(number: f64, thousands_separator: String, decimal_separator
     let trunc_size = trunc_part.len();
     let mut trunc_formated = String::new();
 
-    if number < 0.0 {
+    /* A negative number whose printed digits are all zero gets no sign ('-0,00' entered again would print as '0,00') */
+    let has_value = formated_number.chars().any(|ch| ch != '0' && ch != '.');
+    if number < 0.0 && has_value {
         trunc_formated.push('-');
     }
 
